@@ -279,11 +279,14 @@ CLAIMED = {
         "ANY of the four key/time flag combinations, in any of the 30 keys with any non-negative meter numbers, reads back as "
         "(time iff shown, tonic and mode iff shown, the entries); a track of ANY number of such bars reads back bar by bar - a "
         "bar ends at its MATCHING brace, tuplet blocks nest (takeGroup_close, body_shape) - with key and time read exactly "
-        "where they change, C major and 4/4 before the first bar; kernel example on a two-bar track). Whole tables in "
+        "where they change, C major and 4/4 before the first bar; kernel example on a two-bar track); lyComposition_reads "
+        "(C19Comp.lean: the header fields - any title, author, subtitle without a double quote - and ANY number of tracks "
+        "read back as written; kernel example). Whole tables in "
         "the kernel: duration_table (10 base values longa..128th x 0-2 dots as the doubles dots() yields, and 8 x 3 tuplets: "
         "suffix text and ratio), key_table / key_mode_table (30 keys). Tie A: every statement of lilypond.py and musicxml.py, "
         "type names, longa/breve, clef text.",
-   note=TRUST + "Partial: the composition level (header block, tracks joined) is not parsed by a Lean reader; it is tied by the character-exact correspondence and decoded per generated program by the "
+   note=TRUST + "Partial: the Lean readers cover the vocabulary of values and the 30 keys (what the library's own constructors "
+        "produce); other values and the text of whole files are tied by the character-exact correspondence and decoded per generated program by the "
         "independent Python reader. XML text-level well-formedness and escaping are minidom's, validated per document by expat "
         "(not provable here). Titles containing a double quote are outside the LilyPond domain (the header is not escaped). "
         "Two defects repaired by fix: commits (14be814, deaaf2d).",
@@ -300,7 +303,11 @@ CLAIMED = {
         "tunings satisfying every constraint, for ANY registry); fromNote_equal_lengths (equal string lines for any fitting "
         "single-string tuning, note, width) with beginTrack_lengths and centred_length; registered_labels_fit (whole registry, "
         "kernel); fromBar_equal_lengths (equal string lines for ANY bar and width); fromNC_decode (from_NoteContainer: one cell per "
-        "string, read back exactly as the first fingering find_fingering returns); chord_sound + chord_span (C20Chord.lean: "
+        "string, read back exactly as the first fingering find_fingering returns); fromTrack_decode (C20Track.lean: the page of a "
+        "whole track is a sequence of systems; every bar appears in exactly one system, in order; a glued bar is cut inside the "
+        "label columns - find2_le - so that on every string the lead-in is digit-free and its cells still read back as a fingering "
+        "of each entry; side conditions on the labels hold for the whole registry: registered_labels_fit, "
+        "registered_labels_nodigit); chord_sound + chord_span (C20Chord.lean: "
         "every fingering find_chord_fingering returns has one entry per string, every fretted entry lies within 0..maxfret and "
         "sounds a pitch class of the chord, every chord name is covered, at most max_fingers fingers, non-open frets less than "
         "max_distance apart - via follow_spec, makeTable_good, findNoteNames_spec); fromBar_decode + decodes_spec "
@@ -309,8 +316,8 @@ CLAIMED = {
         "fingering has one distinct string per note in order, each sounding its note; a rest reads as nothing; kernel "
         "examples). Tie A: the add_tuning calls = the model's table, every statement of tunings.py and tablature.py, the "
         "default tuning.",
-   note=TRUST + "Partial: decodability is proved for from_Bar (cells per entry) and from_NoteContainer; for from_Track's gluing of "
-        "bars into lines and from_Composition's headers it is decided by the correspondence and the independent ASCII decoder, "
+   note=TRUST + "Partial: decodability is proved for from_Bar, from_NoteContainer and from_Track; for from_Composition's headers "
+        "and track interleaving it is decided by the correspondence and the independent ASCII decoder, "
         "not proved; chord fingerings and tablature are only "
         "exercised on tunings without courses (find_note_names and begin_track cannot handle a course). Two defects repaired by "
         "fix: commits (2c9d6fc, 84be0a7).",
